@@ -186,6 +186,28 @@ def gen_desc(rng, kind: str | None = None, *, poly_only: bool = True) -> dict:
     return desc
 
 
+# minimised past failures; they run first on every run: (desc, t, x, p2)
+CORPUS = [
+    # a state-dependent computed coefficient on a reaction whose translated rate is a SymPy Integer
+    # (minus(a, a) = 0): the snapshot's `[symbols...] * rxns[rxn]` repeats the list instead of raising
+    # and the coefficient function's unsubstituted body (symbol `x`) lands in the equations
+    (
+        {"vars": [(11, ("plain", 1)), (12, ("plain", 2))], "pars": [(13, ("plain", 3))], "data": [], "der": [],
+         "rxn": [(21, 22, [11, 11], [(11, ("fun", 24, [12])), (12, ("num", Fraction(-1)))]),
+                 (23, 29, [12, 13], [(12, ("num", Fraction(-1))), (11, ("num", Fraction(1)))])],
+         "ro": [], "kind": "corpus/dyn-integer-rate"},
+        0, [1, 2], None,
+    ),
+    # ... and on an ordinary rate
+    (
+        {"vars": [(11, ("plain", 1)), (12, ("plain", 2))], "pars": [(13, ("plain", 3))], "data": [], "der": [],
+         "rxn": [(21, 29, [11, 13], [(11, ("num", Fraction(-1))), (12, ("fun", 24, [11]))])],
+         "ro": [], "kind": "corpus/dyn"},
+        1, [2, -1], {13: 2},
+    ),
+]
+
+
 def expected_convertible(desc: dict) -> bool:
     """Independent rule: is this a model the conversion has to accept whatever its declaration
     order?  (plain numbers as coefficients or parameter-only computed ones, no time, no
@@ -206,10 +228,13 @@ def expected_convertible(desc: dict) -> bool:
         for cpd, coef in st:
             covered.add(cpd)
             if coef[0] == "fun":
-                # computed coefficient: static iff all arguments are parameters / derived parameters
-                if not _param_only(desc, coef[2], plain_pars):
-                    return False
                 if tab[coef[1]][1] != len(coef[2]):
+                    return False
+                # computed coefficient: static (its value is folded) iff all arguments are parameters /
+                # derived parameters; a state-dependent one is translated like a rate
+                if not _param_only(desc, coef[2], plain_pars) and (
+                    coef[1] == c12_fns.UNTRANSLATABLE or any(a not in okn for a in coef[2])
+                ):
                     return False
     return varsn <= covered
 
@@ -311,6 +336,13 @@ def read_inputs(m) -> dict:
         "order": [un(k) for k in cache.order],
         "stoich": [(un(c), [(un(r), to_fraction(n)) for r, n in st.items()]) for c, st in cache.stoich_by_cpds.items()],
         "dyn": [(un(c), [(un(r), comp(d)) for r, d in st.items()]) for c, st in cache.dyn_stoich_by_cpds.items()],
+        # the model's own stoichiometries and what Model._create_cache classifies / evaluates them with
+        "raw": [
+            (un(k), [(un(c), ("fun", comp(f)) if hasattr(f, "fn") else ("num", to_fraction(f))) for c, f in r.stoichiometry.items()])
+            for k, r in m._reactions.items()  # noqa: SLF001
+        ],
+        "parnames": [un(k) for k in cache.all_parameter_values],
+        "pv": [(un(k), to_fraction(v)) for k, v in cache.all_parameter_values.items()],
     }
 
 
@@ -333,6 +365,13 @@ def c_model(inp: dict) -> str:
         f"(mkSM {clist(map(cn, inp['vars']))} {pars} {clist(map(cn, inp['data']))}\n      {der}\n      {rxn}\n"
         f"      {clist(map(cn, inp['order']))}\n      {sto}\n      {dyn})"
     )
+
+
+def c_raw(inp: dict) -> str:
+    def coef(f) -> str:
+        return f"CNum {cq(f[1])}" if f[0] == "num" else f"CFun {c_comp(f[1])}"
+
+    return clist(f"({cn(r)}, {clist(f'({cn(c)}, {coef(f)})' for c, f in st)})" for r, st in inp["raw"])
 
 
 def c_qlist(xs) -> str:
